@@ -382,13 +382,30 @@ where
         value.get_data_type().hash(&mut h);
         let hv = h.finish();
 
-        match self.cache.get(&hv) {
-            Some(addr) => Ok(*addr),
-            None => {
-                let addr = self.data.len();
-                self.data.push(value);
-                self.cache.insert(hv, addr);
-                Ok(addr)
+        // the hash only finds the candidate: two different constants can hash alike (a float and the integer
+        // whose bytes spell its text, 1.5 and -13291983), and an integer equals the float of the same value
+        // without being the same constant
+        let same_constant = |stored: &crate::data::SimpleData<T>| match (stored, &value) {
+            (crate::data::SimpleData::Number(a), crate::data::SimpleData::Number(b)) => match (a, b) {
+                (crate::SimpleNumber::Integer(x), crate::SimpleNumber::Integer(y)) => x == y,
+                (crate::SimpleNumber::Float(x), crate::SimpleNumber::Float(y)) => x.to_bits() == y.to_bits(),
+                _ => false,
+            },
+            (a, b) => a == b,
+        };
+
+        // a different constant that owns the key sends the search on to the next key of a fixed probe sequence
+        let mut key = hv;
+        loop {
+            match self.cache.get(&key) {
+                Some(addr) if self.data.get(*addr).map(same_constant).unwrap_or(false) => return Ok(*addr),
+                Some(_) => key = key.wrapping_mul(0x9E37_79B9_7F4A_7C15).wrapping_add(1),
+                None => {
+                    let addr = self.data.len();
+                    self.data.push(value);
+                    self.cache.insert(key, addr);
+                    return Ok(addr);
+                }
             }
         }
     }
